@@ -45,6 +45,7 @@ func main() {
 	storeDump := flag.String("store-sites", "", "debug: list KV-store access sites of a module with their key builders")
 	sweep := flag.String("benign-sweep", "", "maintenance: apply a mechanical behaviour-preserving rewrite (swapcmp) to every file holding an anchored function and run all properties on each; must be silent")
 	mutJSON := flag.String("mutant-json", "", "internal: overlay edit set {file, edits:[[old,new],…]} read from a JSON file")
+	mutPatch := flag.String("mutant-patch", "", "internal: overlay built from a unified diff (a kept seeded change)")
 	mutAll := flag.Bool("mutant-all", false, "internal: replace every occurrence of the anchor (renames)")
 	manifest := flag.Bool("manifest", false, "regenerate MANIFEST.json from the registered properties")
 	hitsOnly := flag.Bool("hits", false, "internal: print open obligations as MUTANT-HIT lines and write no evidence")
@@ -126,6 +127,16 @@ func main() {
 		opts.Overlay = map[string][]byte{p: []byte(s)}
 		mutDesc = spec.File
 		*mutant = "json"
+	}
+	if *mutPatch != "" {
+		ov, err := overlayFromPatch(*dir, *mutPatch)
+		if err != nil {
+			fmt.Println("MUTANT-STALE", err)
+			os.Exit(3)
+		}
+		opts.Overlay = ov
+		mutDesc = *mutPatch
+		*mutant = "patch"
 	}
 
 	w, err := Load(opts)
@@ -240,6 +251,17 @@ func main() {
 			if h := bodyFingerprint(w, fn); h != "" {
 				sb.WriteString("\t" + strconv.Quote(k) + ": " + strconv.Quote(h) + ",\n")
 			}
+		}
+		sb.WriteString("}\n")
+		// every exported function / method of the repository that exists today: an exported function that is NOT in this
+		// list is new (e.g. a helper extracted by a refactor) and may be inlined by the second pass
+		sb.WriteString("\n// exported repository functions at freeze time (inline.go helperDecl)\nvar frozenExported = map[string]bool{\n")
+		for _, k := range sortedKeys(w.Funcs) {
+			fn := w.Funcs[k]
+			if fn == nil || fn.Parent() != nil || !inRepoScope(fn) || fn.Object() == nil || !fn.Object().Exported() {
+				continue
+			}
+			sb.WriteString("\t" + strconv.Quote(k) + ": true,\n")
 		}
 		sb.WriteString("}\n")
 		sb.WriteString(freezeShapes(w, pats))
